@@ -589,7 +589,11 @@ func (e *env) doUpdate(f []string, trace bool) {
 	post := readDirState(e.dir)
 	after := e.verdict(e.client)
 	newV := fmt.Sprintf("v%d", id)
-	if after != newV && t >= maxLogical(preLogical) {
+	inDomain := t >= maxLogical(preLogical)
+	if !inDomain {
+		o.Kind("clock-stepped-back")
+	}
+	if after != newV && inDomain {
 		o.Fail("update-not-visible", "after a complete update at the newest time GetCached=%s want %s", after, newV)
 	}
 	if !trace {
@@ -625,8 +629,17 @@ func (e *env) doUpdate(f []string, trace bool) {
 		prev = st
 		v := e.verdict(e.sclient)
 		// ---- monitor: the property itself
+		if v == "fallback" && !failed["v"] {
+			if name := validCacheFile(st); name != "" {
+				failed["v"] = true
+				o.Fail("fallback-with-valid-cache", "crash state %d/%d (%s): GetCached=fallback although %s holds a valid configuration", i, len(states), e.listing(st, allLogical), e.canonName(name, S, t))
+			}
+		}
 		switch {
 		case v == newV || v == before:
+		case !inDomain && !strings.HasPrefix(v, "corrupt") && v != "nil":
+			// the clock stepped back behind an existing cache file name: "newest" is not the new file; only
+			// model/implementation agreement is checked (stated assumption of the property)
 		case v == "fallback":
 			if !failed["f"] {
 				failed["f"] = true
@@ -680,6 +693,24 @@ func (e *env) doUpdate(f []string, trace bool) {
 		cops = []string{"none"}
 	}
 	o.Emit("ops=%s states=%s | %s get=%s", strings.Join(cops, ";"), strings.Join(rle, ";"), e.listing(post, e.logical), after)
+}
+
+// validCacheFile returns the name of a cache file of the state that the real decoder accepts ("" if none).
+func validCacheFile(st map[string][]byte) string {
+	names := make([]string, 0, len(st))
+	for n := range st {
+		names = append(names, n)
+	}
+	sort.Strings(names)
+	for _, n := range names {
+		if isCacheName(n) {
+			var c autoconf.Config
+			if json.Unmarshal(st[n], &c) == nil {
+				return n
+			}
+		}
+	}
+	return ""
 }
 
 func maxLogical(m map[string]int) int {
@@ -761,7 +792,13 @@ func exec(c vh.Case, o *vh.Out) {
 			o.Kind("garbage")
 			o.Emit("ok")
 		case "get":
-			o.Emit("%s", e.verdict(e.client))
+			v := e.verdict(e.client)
+			if v == "fallback" {
+				if name := validCacheFile(readDirState(e.dir)); name != "" {
+					o.Fail("fallback-with-valid-cache", "GetCached=fallback although %s holds a valid configuration", name)
+				}
+			}
+			o.Emit("%s", v)
 		case "update":
 			e.doUpdate(f, false)
 		case "crash":
